@@ -28,8 +28,16 @@ assumed("Element.append", "p.append(x): children(p)' = children(p) ++ [x], paren
 # ---------------------------------------------------------------------------------------------------------------
 # G': the induction hypothesis of the generic render contract (contracts/render.py), used as the ASSUMED contract of the
 # two places where rendering dispatches dynamically over token types (DocutilsRenderer.render_children, and the part of
-# _render_tokens after its first loop): output is appended below the current node only, and the current node is put back.
-GP_ENS = [
+# _render_tokens after its first loop).  It holds only where headings cannot open sections: render_heading re-roots the
+# current node and attaches the new section to an OPEN section when the current node is the document, a section, or the
+# temporary root of a match_titles parse (found by run-time monitoring: an unconditional G' fired on
+# nested_render_text('# The title ...') at document level).  So: IF the current node is none of those, output is appended
+# below the current node only, and the current node is put back.
+fields("markdown_it:MdEnv", temp_root_node="Element | None")
+fields("myst_parser.mdit_to_docutils.base:DocutilsRenderer", md_env="MdEnv", current_node="Element")
+GP_COND = ("(self.current_node.kind != 'document' and self.current_node.kind != 'section'"
+           " and self.current_node != self.md_env.get('temp_root_node', None))")
+_GP = [
     "self.current_node == old(self.current_node)",
     "len(self.current_node.children) >= len(old(self.current_node.children))",
     "self.current_node.children[: len(old(self.current_node.children))] == old(self.current_node.children)",
@@ -37,7 +45,12 @@ GP_ENS = [
     "forall_obj('Element', lambda e: implies(old(allocated(e)) and e != self.current_node, e.children == old(e.children)))",
     "forall_obj('Element', lambda e: implies(old(allocated(e)), e.parent == old(e.parent) and e.kind == old(e.kind) and e.line == old(e.line)))",
 ]
+GP_ENS = [f"implies(old({GP_COND}), {c})" for c in _GP]
 GP_MOD = ["Element.children", "Element.parent", "Element.line", "Element.source", "Element.kind", "Element.text", "Element.format",
-          "Document.log", "fresh"]
-GP_TEXT = ("rendering appends below the current node only and puts the current node back (induction hypothesis of the generic "
-           "render contract; proved for the methods under G given G' for their sub-trees, assumed for every other render method)")
+          "Document.log", "DocutilsRenderer.current_node", "fresh"]
+GP_TEXT = ("where headings cannot open sections (the current node is not the document, a section or the temporary root of a "
+           "match_titles parse) rendering appends below the current node only and puts the current node back (induction hypothesis "
+           "of the generic render contract; proved for the methods under G given G' for their sub-trees, assumed for every other "
+           "render method)")
+# what every method under G needs to know about the temporary root: it is a node that already exists
+GP_REQ = ["implies(self.md_env.get('temp_root_node', None) is not None, allocated(self.md_env.get('temp_root_node', None)))"]
